@@ -31,9 +31,11 @@ Lemma benign s s' j w' :
   pc_ok (wpc w') -> local_ok w' ->
   (pmsg s' + wcnt w' - pnet s' = pmsg s + wcnt (W s j) - pnet s)%Z ->
   (pinj s' = pinj s \/ (wact (W s j) = true /\ last_pc (wpc (W s j)) = false)) ->
+  (pmtok s = true -> pmtok s' = true) ->
+  (wpc (W s j) = WPost [BUnparkMain; BPark] -> pmtok s' = true) ->
   Inv s'.
 Proof.
-  intros I Hj Ews Em Ep Er Ha Ht Hpk Hnu' Hnu Hnl Hwa Hpc Hloc Hsum Hinj.
+  intros I Hj Ews Em Ep Er Ha Ht Hpk Hnu' Hnu Hnl Hwa Hpc Hloc Hsum Hinj Hmt1 Hmt2.
   assert (EW : forall x, W s' x = if Nat.eqb x j then w' else W s x) by (intros x; eapply W_upd; eauto).
   assert (Eacts : acts s' = acts s).
   { unfold acts. rewrite Ews. apply map_wact_lupd; auto. }
@@ -81,6 +83,17 @@ Proof.
   - rewrite Ews, sumc_lupd by auto. fold (W s j). pose proof (i_sum s I). lia.
   - rewrite Ep. apply I.
   - rewrite Er. apply I.
+  - intros v; rewrite EW, Em; wsplit v j.
+    + rewrite Ha, Hpk, Ht. intros A B. destruct (i_wake s I j A B) as [T|[[x Hx]|M]]; auto.
+      right; left. exists x. rewrite EW. wsplit x j; [exfalso; eapply Hnu; eauto|exact Hx].
+    + intros A B. destruct (i_wake s I v A B) as [T|[[x Hx]|M]]; auto.
+      right; left. exists x. rewrite EW. wsplit x j; [exfalso; eapply Hnu; eauto|exact Hx].
+  - rewrite Em. intros M A.
+    assert (A' : forall v, wact (W s v) = false).
+    { intros v. pose proof (A v) as A0. rewrite EW in A0. revert A0. wsplit v j; intros A0; congruence. }
+    destruct (i_mwake s I M A') as [T|[x Hx]]; [left; auto|].
+    wsplit x j; [left; apply Hmt2; exact Hx|].
+    right. exists x. rewrite EW. destruct (Nat.eqb_spec x j); [contradiction|exact Hx].
 Qed.
 
 
@@ -120,9 +133,11 @@ Lemma clear_bit s s' j w' :
   wact w' = false -> wtok w' = false -> parkish (wpc w') = true ->
   pc_ok (wpc w') -> local_ok w' ->
   ((exists v, v <> j /\ wact (W s v) = true) \/ pinj s = 0) ->
+  (forall v, wpc (W s j) <> WUnpark v) ->
+  ((exists v, v <> j /\ wact (W s v) = true) \/ wpc w' = WPost [BUnparkMain; BPark]) ->
   Inv s'.
 Proof.
-  intros I Hj EW El Es Em Ep Er Ei Emsg Enet Ha Hnp Ha' Ht' Hp' Hpc Hloc Hoth.
+  intros I Hj EW El Es Em Ep Er Ei Emsg Enet Ha Hnp Ha' Ht' Hp' Hpc Hloc Hoth Hnu Hmw.
   assert (Hpk : forall v, wpc w' <> WUnpark v) by (intros v E; rewrite E in Hp'; discriminate).
   assert (Hq : main_quiet (pmain s) = false) by (eapply active_not_quiet; eauto).
   constructor.
@@ -155,6 +170,12 @@ Proof.
   - rewrite Emsg, Es, Enet. apply I.
   - rewrite Ep; apply I.
   - rewrite Er; apply I.
+  - intros v; rewrite EW, Em; wsplit v j; [congruence|].
+    intros A B. destruct (i_wake s I v A B) as [T|[[x Hx]|M]]; auto.
+    right; left. exists x. rewrite EW. wsplit x j; [exfalso; eapply Hnu; eauto|exact Hx].
+  - intros M A. destruct Hmw as [[v [Hv1 Hv2]]|Hw].
+    + pose proof (A v) as A0. rewrite EW in A0. revert A0. destruct (Nat.eqb_spec v j); [contradiction|congruence].
+    + right. exists j. rewrite EW, Nat.eqb_refl. exact Hw.
 Qed.
 
 (* parker.park() returns: the token is consumed *)
@@ -202,6 +223,10 @@ Proof.
   - rewrite Emsg, Es, Enet. apply I.
   - rewrite Ep; apply I.
   - rewrite Er; apply I.
+  - intros v; rewrite EW, Em; wsplit v j; [rewrite Hpc'; discriminate|].
+    intros A1 B1. destruct (i_wake s I v A1 B1) as [T|[[x Hx]|M]]; auto.
+    right; left. exists x. rewrite EW. wsplit x j; [exfalso; rewrite Hx in B; discriminate|exact Hx].
+  - intros M A1. specialize (A1 j). rewrite EW, Nat.eqb_refl in A1. congruence.
 Qed.
 
 (* An activator (worker j at WAct v, or the main thread) sets the bit of the inactive worker v. *)
@@ -283,6 +308,11 @@ Proof.
     + rewrite Emsg, Es, Enet. apply I.
     + rewrite Ep; apply I.
     + rewrite Er; apply I.
+    + intros u; rewrite EW, Em; wsplit u j; [rewrite Hpw; discriminate|]. wsplit u v.
+      * intros _ _. right; left. exists j. rewrite EW, Nat.eqb_refl. exact Hpw.
+      * intros A1 B1. destruct (i_wake s I u A1 B1) as [T|[[x Hx]|M]]; auto.
+        right; left. exists x. rewrite EW. wsplit x j; [congruence|]. wsplit x v; [rewrite Hpc'|]; exact Hx.
+    + intros M A1. specialize (A1 j). rewrite EW, Nat.eqb_refl in A1. congruence.
   - destruct Hby as ([a Ea] & Em & EW).
     assert (Q : main_quiet (pmain s) = true) by (rewrite Ea; reflexivity).
     pose proof (i_main s I Q) as AllI.
@@ -312,6 +342,9 @@ Proof.
     + rewrite Emsg, Es, Enet. apply I.
     + rewrite Ep; apply I.
     + rewrite Er; apply I.
+    + intros u; rewrite EW, Em; wsplit u v; [intros _ _; right; right; reflexivity|].
+      intros A1 _. rewrite AllI in A1. discriminate.
+    + rewrite Em. discriminate.
 Qed.
 
 (* The activator hands the token over: worker_unparkers[v].unpark() *)
@@ -380,6 +413,10 @@ Proof.
     + rewrite Emsg, Es, Enet. apply I.
     + rewrite Ep; apply I.
     + rewrite Er; apply I.
+    + intros u; rewrite EW, Em; wsplit u j; [rewrite Hpw; discriminate|]. wsplit u v; [intros _ _; left; exact Ht'|].
+      intros A1 B1. destruct (i_wake s I u A1 B1) as [T|[[x Hx]|M]]; auto.
+      right; left. exists x. rewrite EW. wsplit x j; [congruence|]. rewrite Hyp. exact Hx.
+    + intros M A1. specialize (A1 j). rewrite EW, Nat.eqb_refl in A1. congruence.
   - destruct Hby as (Em0 & Em & EW).
     destruct (i_munp s I v Em0) as (Av & Pv & Tv).
     assert (NU : forall y, wpc (W s y) <> WUnpark v).
@@ -411,6 +448,11 @@ Proof.
     + rewrite Emsg, Es, Enet. apply I.
     + rewrite Ep; apply I.
     + rewrite Er; apply I.
+    + intros u; rewrite EW, Em; wsplit u v; [intros _ _; left; exact Ht'|].
+      intros A1 B1. destruct (i_wake s I u A1 B1) as [T|[[x Hx]|M]]; auto.
+      * right; left. exists x. rewrite EW, Hyp. exact Hx.
+      * congruence.
+    + rewrite Em. discriminate.
 Qed.
 
 (* The main thread moves on, the workers are untouched. *)
@@ -422,9 +464,12 @@ Lemma main_frame s s' :
   (forall a, pmain s' = MAct a -> a = acts s) ->
   (0 < pinj s' -> (exists v, wact (W s v) = true) \/ pmain s' = MIdle \/ exists a, pmain s' = MAct a) ->
   (forall m n, In (m, n) (preads s') -> m = n) ->
+  (forall v, pmain s <> MUnpark v) ->
+  (pmain s' = MPark -> (forall v, wact (W s v) = false) ->
+     pmtok s' = true \/ exists x, wpc (W s x) = WPost [BUnparkMain; BPark]) ->
   Inv s'.
 Proof.
-  intros I Ews Ep Emsg Enet Hinj Hmu Hq Hsn Hi Hr.
+  intros I Ews Ep Emsg Enet Hinj Hmu Hq Hsn Hi Hr Hnm Hmw.
   assert (EW : forall x, W s' x = W s x) by (intros x; unfold W; rewrite Ews; reflexivity).
   constructor.
   - rewrite Ews; apply I.
@@ -451,6 +496,12 @@ Proof.
   - rewrite Emsg, Ews, Enet. apply I.
   - rewrite Ep; apply I.
   - exact Hr.
+  - intros v; rewrite EW. intros A B. destruct (i_wake s I v A B) as [T|[[x Hx]|M]]; auto.
+    + right; left. exists x. rewrite EW. exact Hx.
+    + exfalso. eapply Hnm; eauto.
+  - intros M A. destruct (Hmw M) as [T|[x Hx]]; auto.
+    + intros v. rewrite <- EW. apply A.
+    + right. exists x. rewrite EW. exact Hx.
 Qed.
 
 (* Worker v loses tasks of its local queue to a thief: nothing the invariant talks about changes. *)
@@ -459,9 +510,9 @@ Lemma lq_only s s' v x' :
   pmain s' = pmain s -> ppanic s' = ppanic s -> preads s' = preads s ->
   pinj s' = pinj s -> pmsg s' = pmsg s -> pnet s' = pnet s ->
   wpc x' = wpc (W s v) -> wact x' = wact (W s v) -> wtok x' = wtok (W s v) -> wcnt x' = wcnt (W s v) ->
-  local_ok x' -> Inv s'.
+  local_ok x' -> pmtok s' = pmtok s -> Inv s'.
 Proof.
-  intros I Hv Ews Em Ep Er Ei Emsg Enet Hpc Ha Ht Hc Hl.
+  intros I Hv Ews Em Ep Er Ei Emsg Enet Hpc Ha Ht Hc Hl Emt.
   assert (EW : forall y, W s' y = if Nat.eqb y v then x' else W s y) by (intros y; eapply W_upd; eauto).
   assert (Ppc : forall y, wpc (W s' y) = wpc (W s y)) by (intros y; rewrite EW; wsplit y v; auto).
   assert (Pa : forall y, wact (W s' y) = wact (W s y)) by (intros y; rewrite EW; wsplit y v; auto).
@@ -486,4 +537,9 @@ Proof.
   - rewrite Emsg, Enet, Ews, sumc_lupd by auto. fold (W s v). pose proof (i_sum s I). lia.
   - rewrite Ep; apply I.
   - rewrite Er; apply I.
+  - intros u; rewrite Pa, Ppc, Pt, Em. intros A B. destruct (i_wake s I u A B) as [T|[[x Hx]|M]]; auto.
+    right; left. exists x. rewrite Ppc. exact Hx.
+  - rewrite Em, Emt. intros M A. destruct (i_mwake s I M) as [T|[x Hx]]; auto.
+    + intros u. rewrite <- Pa. apply A.
+    + right. exists x. rewrite Ppc. exact Hx.
 Qed.
